@@ -1250,14 +1250,18 @@ class ArithmeticExpression(Term):
     def get_sql(self, with_alias: bool = False, **kwargs: Any) -> str:
         left_op, right_op = [getattr(side, "operator", None) for side in [self.left, self.right]]
 
+        right_sql = self.right.get_sql(**kwargs)
+        # a negative literal or a negation to the right of '-' needs parentheses too: "--" would start a comment
+        right_parens = self.right_needs_parens(self.operator, right_op) or (
+            self.operator == Arithmetic.sub and right_sql.startswith("-")
+        )
+
         arithmetic_sql = "{left}{operator}{right}".format(
             operator=self.operator.value,
             left=("({})" if self.left_needs_parens(self.operator, left_op) else "{}").format(
                 self.left.get_sql(**kwargs)
             ),
-            right=("({})" if self.right_needs_parens(self.operator, right_op) else "{}").format(
-                self.right.get_sql(**kwargs)
-            ),
+            right=("({})" if right_parens else "{}").format(right_sql),
         )
 
         if with_alias:
